@@ -27,7 +27,7 @@ ASSUMPTIONS = ['besides random stages, one older stage is derived from the docum
 def _case(draw):
     structural = draw(st.integers(0, 3)) == 0
     strs = st.one_of(S.SIMPLE_SCALARS, st.sampled_from(['multi\nline', "it's", 'say "x"', 'both \' and "', ' lead', 'trail ', '1', 'true', '~', 'a: b', '#c', '', 'é中', "f'{1+1}'", 'f"x"', '0x1F', '1_000']))
-    doc = draw(S.full_doc(allow_structural=structural, scalars=strs, aliases=draw(st.booleans())))
+    doc = draw(S.full_doc(allow_structural=structural, scalars=strs, aliases=draw(st.sampled_from([False, True, 'all']))))
     pre = draw(st.lists(S.tagged_stages(min_stages=1, max_stages=1, keys=S.MERGE_KEYS_NONEG, neg=False, density=3).map(lambda l: l[0]), max_size=2))
     post = draw(st.lists(S.tagged_stages(min_stages=1, max_stages=1, keys=S.MERGE_KEYS_NONEG, neg=False, density=3, notnew=True).map(lambda l: l[0]), max_size=2))
     return {'doc': doc, 'pre': pre, 'post': post, 'structural': structural}
@@ -145,6 +145,11 @@ def run_case(case):
     st_, dumped2 = O.try_call(ayyaml.dump, D2)
     if st_ != 'ok' or dumped2 != dumped:
         raise Violation(f'C18: dumping the re-parsed document does not give the same text again:\n{dumped2}{src}')
+    # a dynamic node that an alias places at several paths is one node (evaluated once, merged as one): the text must say so again
+    from .c19 import sharing
+    s1, s2 = sharing(parse_one(text)), sharing(D2)
+    if s1 != s2:
+        raise Violation(f'C18: in the original these groups of paths hold one node each: {s1}; after dump -> parse: {s2}{src}')
     m1, m2 = user_md(parse_one(text)), user_md(D2)
     if m1 != m2:
         diff = [(a, b) for a, b in zip(m1, m2) if a != b][:3] or [('length', len(m1), len(m2))]
